@@ -209,6 +209,10 @@ class System:
                 ops.append('e%d:sedit' % i)
             if self.delete_ops and self.content[d] is not None:
                 ops.append('e%d:del' % i)
+            if d.startswith('T') and self.content[d] is not None:
+                # the second policy directory vanishes as a whole (the next
+                # edit brings it back)
+                ops.append('e%d:rmdir' % i)
             if late and not self.registered[i]:
                 ops.append('e%d:register' % i)
         return ops
@@ -252,6 +256,9 @@ class System:
                     self.stale_ok[j] = False
         elif kind == 'touch':
             self.w.touch('%s/policy.yaml' % d)
+        elif kind == 'rmdir':
+            self.w.rmdir('%s/q' % d)
+            self.content[d] = None
         elif kind == 'del':
             self.w.delete(rel_of(d))
             self.content[d] = None
